@@ -35,8 +35,10 @@ def generate(rng, tier, r):
     return ts.gen_rar_program(rng, r, tier, float_mode(r))
 
 
-def model_steps(program, upto):
-    """Integer model: list J(i) = number of refinement steps done after iteration i, for i in [0, upto)."""
+def model_steps(program, upto=None):
+    """Integer model: list J(i) = number of refinement steps done after GLOBAL iteration i.
+    Every solve() call (segment) restarts the iteration clock and the period counter;
+    the number of steps done carries over with the generator."""
     rar = program["rar"]
     rp = rar["params"]
     d = program["data"]
@@ -45,14 +47,16 @@ def model_steps(program, upto):
         dims.append((d["nt"], rar["nt_start"], rp["selected_sample_size_times"]))
     if "n_start" in rar:
         dims.append((d["n"], rar["n_start"], rp["selected_sample_size_omega"]))
-    J, out = 0, []
-    for i in range(upto):
-        due = i >= rp["start_iter"] and (i - rp["start_iter"]) % rp["update_every"] == 0
-        room = all(s0 + (J + 1) * sel <= n for (n, s0, sel) in dims)
-        if due and room:
-            J += 1
-        out.append(J)
-    return out, dims
+    J, out, local = 0, [], []
+    for seg in program["segments"]:
+        for i in range(seg["n"]):
+            due = i >= rp["start_iter"] and (i - rp["start_iter"]) % rp["update_every"] == 0
+            room = all(s0 + (J + 1) * sel <= n for (n, s0, sel) in dims)
+            if due and room:
+                J += 1
+            out.append(J)
+            local.append(i)
+    return out, dims, local
 
 
 def execute(program, ctx):
@@ -60,51 +64,63 @@ def execute(program, ctx):
     from sim import trainsim as ts
     from sim.core import Violation
 
-    T = ts.run_rar(program)
-    n = program["segments"][0]["n"]
+    T = ts.run_rar(dict(program, prop=ID))
+    n = sum(s["n"] for s in program["segments"])
     rar = program["rar"]
     rp = rar["params"]
     kind = program["data"]["kind"]
     every = rp["update_every"]
+    resumed = len(program["segments"]) > 1
 
     def fail(inv, what, details, step=None):
         e = "every1" if every == 1 else "every>1"
-        raise Violation(ID, inv, f"{ID}.{inv}/{program['eq']}/{e}/{what}", dict(details, rar=rar, n_iter=n), step)
+        raise Violation(ID, inv, f"{ID}.{inv}/{program['eq']}/{e}/{'resumed/' if resumed else ''}{what}", dict(details, rar=rar, segments=program["segments"]), step)
 
-    if len(T.snaps) != n + 1:
+    if len(T.snaps) != n:
         fail("iteration-count", "carries", {"got": len(T.snaps)})
     ctx.sim_time += n
-    Js, dims = model_steps(program, n)
+    Js, dims, local = model_steps(program)
     fields = []
     if "nt_start" in rar:
         fields.append(("times", "p_times", program["data"]["nt"], rar["nt_start"], rp["selected_sample_size_times"]))
     if "n_start" in rar:
         fields.append(("omega", "p_omega", program["data"]["n"], rar["n_start"], rp["selected_sample_size_omega"]))
     # before the loop
-    s0 = T.snaps[0]
+    s0 = T.snaps[0][0]
     for name, pf, size, st0, sel in fields:
         if int(np.count_nonzero(s0[pf] > 0)) != st0 or s0[pf].shape[0] != size:
             fail("initial-mask", name, {"active": int(np.count_nonzero(s0[pf] > 0)), "declared": st0})
+    # a resumed call must take the generator over as it was returned
+    for (g_it, returned, taken) in T.bounds:
+        if taken["rar_iter_nb"] != returned["rar_iter_nb"]:
+            fail("resume-lost-steps", "count", {"at_iteration": g_it, "returned": returned["rar_iter_nb"], "taken_over": taken["rar_iter_nb"]}, g_it)
+        for name, pf, size, st0, sel in fields:
+            if int(np.count_nonzero(taken[pf] > 0)) != int(np.count_nonzero(returned[pf] > 0)):
+                fail("resume-lost-steps", name, {"at_iteration": g_it}, g_it)
+        ctx.count("fault.stop_resume")
     first_step_seen = None
     for i in range(n):
-        s = T.snaps[i + 1]
+        sb, s = T.snaps[i]
         J = Js[i]
+        li = local[i]
         got_J = s["rar_iter_nb"]
+        got_prev = sb["rar_iter_nb"]
+        prevJ = Js[i - 1] if i else 0
+        if got_prev != prevJ:
+            fail("step-count", "before-iteration", {"iteration": i, "expected_steps": prevJ, "got": got_prev}, i)
         if got_J != J:
-            if i < rp["start_iter"]:
-                fail("step-before-start", "count", {"iteration": i, "steps": got_J}, i)
-            prevJ = Js[i - 1] if i else 0
-            got_prev = T.snaps[i]["rar_iter_nb"]
+            if li < rp["start_iter"]:
+                fail("step-before-start", "count", {"iteration": i, "local_iteration": li, "steps": got_J}, i)
             if got_J == got_prev and J == prevJ + 1:
                 # a scheduled step did not happen
-                if prevJ == 0 and i == rp["start_iter"]:
-                    fail("first-step-late", "missed-at-start", {"iteration": i, "start": rp["start_iter"], "every": every}, i)
-                fail("step-missed", "schedule", {"iteration": i, "expected_steps": J, "got": got_J}, i)
+                if li == rp["start_iter"]:
+                    fail("first-step-late", "missed-at-start", {"iteration": i, "local_iteration": li, "start": rp["start_iter"], "every": every}, i)
+                fail("step-missed", "schedule", {"iteration": i, "local_iteration": li, "expected_steps": J, "got": got_J}, i)
             if got_J == got_prev + 1 and J == prevJ:
                 room = all(st0 + (prevJ + 1) * sel <= size for (_, _, size, st0, sel) in fields)
                 if not room:
                     fail("step-beyond-capacity", "schedule", {"iteration": i, "steps": got_J}, i)
-                fail("step-off-schedule", "schedule", {"iteration": i, "expected_steps": J, "got": got_J, "start": rp["start_iter"], "every": every}, i)
+                fail("step-off-schedule", "schedule", {"iteration": i, "local_iteration": li, "expected_steps": J, "got": got_J, "start": rp["start_iter"], "every": every}, i)
             fail("step-count", "schedule", {"iteration": i, "expected_steps": J, "got": got_J}, i)
         for name, pf, size, st0, sel in fields:
             act = int(np.count_nonzero(s[pf] > 0))
@@ -113,7 +129,7 @@ def execute(program, ctx):
             if act != st0 + J * sel:
                 fail("active-count", name, {"iteration": i, "steps": J, "active": act, "expected": st0 + J * sel}, i)
         if J >= 1 and first_step_seen is None:
-            first_step_seen = i
+            first_step_seen = li
     Jf = Js[-1] if Js else 0
     if T.m1 is not None:
         d1 = T.m1[3]
@@ -130,25 +146,29 @@ def execute(program, ctx):
         ctx.count("fault.capacity_exhausted")
         # were there scheduled slots after exhaustion (steps that had to be refused)?
         last = max((i for i in range(n) if (Js[i] > (Js[i - 1] if i else 0))), default=None)
-        if last is not None and any(i > last and i >= rp["start_iter"] and (i - rp["start_iter"]) % every == 0 for i in range(n)):
+        if last is not None and any(i > last and local[i] >= rp["start_iter"] and (local[i] - rp["start_iter"]) % every == 0 for i in range(n)):
             ctx.count("probe.step_refused_after_exhaustion")
-    if rp["start_iter"] >= n:
+    if rp["start_iter"] >= max(sg["n"] for sg in program["segments"]):
         ctx.count("probe.start_beyond_horizon")
     if len(fields) == 2 and fields[0][3] != fields[1][3]:
         ctx.count("probe.nt_start_differs_from_n_start")
     ctx.nontrivial = Jf >= 1
-    ctx.key = [program["eq"], rar, program["data"], n]
+    ctx.key = [program["eq"], rar, program["data"], [sg["n"] for sg in program["segments"]]]
     startpos = "beyond" if rp["start_iter"] >= n else ("zero" if rp["start_iter"] == 0 else "interior")
-    ctx.state((program["eq"], every, startpos, min(Jf, 4), exhausted, len(fields) == 2 and fields[0][3] == fields[1][3]))
-    ctx.log.add("result", steps=Js, final=[T.snaps[-1].get("p_times"), T.snaps[-1].get("p_omega")])
+    ctx.state((program["eq"], every, startpos, min(Jf, 4), exhausted, len(fields) == 2 and fields[0][3] == fields[1][3], resumed))
+    ctx.log.add("result", steps=Js, final=[T.snaps[-1][1].get("p_times"), T.snaps[-1][1].get("p_omega")])
 
 
 def shrink(program):
     segs = program["segments"]
-    n = segs[0]["n"]
-    for nv in sorted({1, 2, n // 2, n - 1}):
-        if 1 <= nv < n:
-            yield dict(program, segments=[{"n": nv}])
+    if len(segs) > 1:
+        yield dict(program, segments=[{"n": sum(x["n"] for x in segs)}])
+        yield dict(program, segments=[{"n": segs[0]["n"]}])
+    for k, sg in enumerate(segs):
+        n = sg["n"]
+        for nv in sorted({1, 2, n // 2, n - 1}):
+            if 1 <= nv < n:
+                yield dict(program, segments=segs[:k] + [dict(sg, n=nv)] + segs[k + 1:])
     if program.get("also_M1"):
         yield dict(program, also_M1=False)
     rp = program["rar"]["params"]
